@@ -58,6 +58,12 @@ served as the regression test):
 | C19-r42 | C19 | the portable lookup calls the validating `ConditionalSelect` and panics on table entries (whose validity flag is never set); the equivalence rule ignored panicking paths | `C19-2/.../no-panic`: the portable twin has no reachable panic (the assembly has none) |
 | C02-r51, C05-r52, C08-r52, C12-r52, C18-r51 | C02, C05, C08, C12, C18 | each breaks a clause that the property *states* but that was decided only by another property's check (the shared helpers under C01; "every private scalar is mapped to d*G" under C10; "the encodings parse back" under C12; the Bitcoin entry point's own slicing under C07; scalar folds with the receiver in the list under C02) | the rule that decides the clause is also run by the check of every property that states it (`C02-8` helpers, `C10-3` in C05, `C12-1..4` in C08, `C07-4` incl. a new bounds obligation in C12, `C02-2c` in C18) |
 | C09-r51 | C09 | the sampler aborted on a candidate >= n instead of drawing the next one; the rule looked at accepting paths only | `C09-3`: an error return without a failed read is allowed only after the maximum number of attempts |
+| C04-r62 | C04 (the check did not terminate) | a ladder that skips leading zero windows made the merged conditions deep DAGs; negation of a merged condition recursed without memoisation (exponential) | `sym.Not` memoised (2.6 s instead of > 1 h); independently, every check has a wall-clock budget after which it reports the undecided obligation `checker/analysis-timeout` (exit 1) instead of hanging |
+| C05-r61, C11-r61 | C05, C11 | slips in the portable lookups / their helper that only the purego build executes; the quick tier of C05 analysed the assembly configuration only, and C11's roots did not include `sign` although the property speaks of signatures produced by Sign | C05 decides the lookups of the purego configuration in the quick tier too; C11 runs the sign rule `C08-1` (so the constant-time base multiplication is part of what it rests on) |
+| C09-r62 | C09 | `hashToScalar` refuses digests >= n instead of reducing them (RFC 6979 bits2octets); only C07 / C08 / C11 looked at the digest scalar | `C09-1/hashToScalar`: e = leftmost 32 bytes mod n for every digest of >= 32 bytes |
+| C13-r61 | C13 | `SchnorrPublicKey.Point()` hands out the key's internal point; the accessor rule ran under C18 / C10 only | `c18KeyMethods` also under C13 and C14 |
+| C15-r61 | C15 | the blank import of `crypto/sha256` dropped: `crypto.SHA256.New()` panics in programs that do not link the implementation otherwise | `C15-1/hash-linked/*`: a package that calls `crypto.Hash.New` and names a hash identifier has the implementing package in its import closure |
+| C16-r62 | C16 | batches above 128 split with the remainder dropped: a length threshold that neither the instances 0..3 nor the loop argument see | `C16-2/shape`: no branch on the list length against a constant above 3 |
 | C19-r22 | C19 (after the relevance filter was added) | reachability was computed in the amd64 configuration only; the portable lookup is the only caller that passes non-0/1 values to `Uint64Equal` | relevance is the union over every loaded build configuration |
 ''')
 s = open('/verif/DESIGN.md').read()
